@@ -4,7 +4,7 @@ from fractions import Fraction
 
 from ..poly import Sym, equal_mod
 from .. import poly
-from ..interp import (Interp, Hooks, Opaque, Str, Tup, Cmp, Bound, ExtRef, NONE, Const)
+from ..interp import (Interp, Hooks, Opaque, Str, Tup, Cmp, Bound, ExtRef, NONE, Const, FuncRef)
 from ..model import AnalysisError
 from .. import purity
 
@@ -48,7 +48,17 @@ class VbHooks(Hooks):
             a = args[0]
             if isinstance(a, Opaque) and a.label.startswith('vbtok'):
                 return [(V(['min_x', 'min_y', 'w', 'h', 'x4', 'x5'][int(a.label[5:])]), st)]
+        if isinstance(target, FuncRef) and target.qual == 'plot_utils.parseLengthWithUnits' and \
+                len(args) == 1 and isinstance(args[0], Opaque) and args[0].label.startswith('vbtok'):
+            # the length parser (C12) takes "100px", "8.5in", "50%" for numbers: viewBox items
+            # are plain numbers, so a token converted this way accepts malformed values.  The
+            # call is summarised: the token's number with a unit, or (None, None).
+            self.length_parser_on_tokens = interp.cur.loc(node)
+            v = V(['min_x', 'min_y', 'w', 'h', 'x4', 'x5'][int(args[0].label[5:])])
+            return [(Tup((v, Str.lit('px'))), st), (Tup((NONE, NONE)), st)]
         return None
+
+    length_parser_on_tokens = None
 
     def decide(self, cond, st):
         if isinstance(cond, Cmp) and isinstance(cond.a, Sym) and isinstance(cond.b, Sym):
@@ -157,6 +167,11 @@ def run(ck, prog, tier):
             return ()
     hk = BadNumber(ar=1)
     outs = interp(NONE, hk)
+    ck.ob('C11-D4-identity', 'vb_scale::tokens-are-plain-numbers', hk.length_parser_on_tokens is None,
+          'the viewBox items are converted with parseLengthWithUnits (%s), which strips unit '
+          'suffixes: the malformed viewBox "0 0 100px 50px" (or "0 0 8.5in 11in", "0 0 50%% 50%%") '
+          'is accepted and scaled instead of giving the identity transform (1,1,0,0)'
+          % hk.length_parser_on_tokens, fn.loc(), key='vb_scale::identity-unit-suffix')
     esc = [o for o in outs if o.kind == 'raise' and 'ValueError' in str(o.value)]
     ck.ob('C11-D4-identity', 'vb_scale::non-numeric-tokens', not esc,
           'a viewBox with a token that is not a number ("0 0 abc 100") makes vb_scale raise '
